@@ -19,6 +19,8 @@ pub enum Profile {
     Xor,
     Multi,
     Pace,
+    /// large heaps, bulk operations, long slot tables, many cycles
+    Scale,
 }
 
 #[derive(Clone, Debug)]
@@ -32,6 +34,10 @@ pub struct GenCfg {
     pub faults: bool,
     /// pacing workloads dominated by barrier storms (credit accounting of the barriers)
     pub storm: bool,
+    /// scale workloads dominated by dynamic-root handle tables
+    pub handles: bool,
+    /// destructor panics (collection calls and arena drops)
+    pub dfaults: bool,
 }
 
 pub struct Gen {
@@ -40,19 +46,23 @@ pub struct Gen {
     next_handle: u32,
     /// ids are never reused, whether or not the op that allocates them gets executed
     next_id: Id,
+    /// ops already decided (bulk sequences of the scale profile)
+    pending: std::collections::VecDeque<Op>,
+    /// handles stashed together, in stash order (consecutive slot indices when the table is fresh)
+    batches: Vec<Vec<u32>>,
 }
 
 struct Scratch {
     /// ids usable as operands in the body being generated, with (kind, n)
-    avail: Vec<(Id, Kind, u8)>,
+    avail: Vec<(Id, Kind, u32)>,
     next_id: Id,
 }
 
 impl Scratch {
-    fn pick(&self, rng: &mut Rng) -> Option<(Id, Kind, u8)> {
+    fn pick(&self, rng: &mut Rng) -> Option<(Id, Kind, u32)> {
         if self.avail.is_empty() { None } else { Some(self.avail[rng.below(self.avail.len())]) }
     }
-    fn pick_kind(&self, rng: &mut Rng, f: impl Fn(Kind) -> bool) -> Option<(Id, Kind, u8)> {
+    fn pick_kind(&self, rng: &mut Rng, f: impl Fn(Kind) -> bool) -> Option<(Id, Kind, u32)> {
         let v: Vec<_> = self.avail.iter().filter(|x| f(x.1)).copied().collect();
         if v.is_empty() { None } else { Some(v[rng.below(v.len())]) }
     }
@@ -75,7 +85,7 @@ const KIND_W: [(Kind, u32); 12] = [
 
 impl Gen {
     pub fn new(seed: u64, cfg: GenCfg) -> Gen {
-        Gen { rng: Rng::new(seed), cfg, next_handle: 1, next_id: 1 }
+        Gen { rng: Rng::new(seed), cfg, next_handle: 1, next_id: 1, pending: Default::default(), batches: Vec::new() }
     }
 
     fn pick_kind(&mut self) -> Kind {
@@ -135,9 +145,9 @@ impl Gen {
 
     fn gen_alloc(&mut self, sc: &mut Scratch) -> MOp {
         let kind = self.pick_kind();
-        let n: u8 = match kind {
-            Kind::Slice | Kind::Swh => self.rng.below(4) as u8,
-            Kind::Str => self.rng.below(9) as u8,
+        let n: u32 = match kind {
+            Kind::Slice | Kind::Swh => self.rng.below(4) as u32,
+            Kind::Str => self.rng.below(9) as u32,
             _ => 0,
         };
         let ns = kind.n_strong(n as usize);
@@ -515,11 +525,383 @@ impl Gen {
         }
     }
 
+
+    /// boundary-biased size for bulk operations
+    fn bulk_n(&mut self, cap: usize) -> usize {
+        let n = [3usize, 17, 31, 32, 33, 63, 64, 65, 100, 127, 128, 129, 130, 200, 255, 256, 257, 258, 300, 400, 520][self.rng.below(21)];
+        n.min(cap)
+    }
+
+    /// scale workload: hundreds of live objects, bulk adoption / weak / handle operations in ONE
+    /// callback, long garbage runs, long handle tables emptied down to a few boundary survivors,
+    /// runs of collector steps, many completed cycles
+    fn next_scale_op(&mut self, ex: &mut Exec, a: u8, step: usize) -> Op {
+        if let Some(op) = self.pending.pop_front() {
+            return op;
+        }
+        if step == 0 {
+            let p = self.pacing_spec();
+            return Op::SetPacing { a, p };
+        }
+        let reach: Vec<Id> = ex.w.reachable(a).iter().copied().collect();
+        let n = reach.len();
+        let big = self.cfg.max_objs.max(200);
+        let grow = |g: &mut Gen, ex: &mut Exec| {
+            let m = [40u32, 70, 129, 150][g.rng.below(4)];
+            let first_id = g.take_ids(ex, m);
+            Op::Cb { a, kind: CbKind::MutateRoot, body: vec![MOp::Chain { n: m, first_id, slot: g.rng.below(ROOT_S.min(4)) as u8 }] }
+        };
+        if n < 60 {
+            return grow(self, ex);
+        }
+        // parents with writable strong slots, preferring empty slots (keeps the heap large)
+        let mut parents: Vec<(Id, u8)> = Vec::new();
+        for id in reach.iter() {
+            let o = &ex.w.objs[id];
+            let k = o.kind;
+            let ns = o.strong.len();
+            if ns == 0 || k == Kind::Dyn {
+                continue;
+            }
+            let empty: Vec<usize> = (0..ns).filter(|s| o.strong[*s].is_none() && k.slot_mutable(*s)).collect();
+            let slot = if !empty.is_empty() && self.rng.chance(9, 10) { empty[self.rng.below(empty.len())] } else { self.rng.below(ns) };
+            if k.slot_once(slot) && o.strong[slot].is_some() {
+                continue;
+            }
+            parents.push((*id, slot as u8));
+        }
+        self.rng.shuffle(&mut parents);
+        // weights: grow, adopt, relink, weak, upgrade, stash, droph, fetch, unlink, garbage, small, collect, cycles, audit, finalize, cut,
+        //          wrap, wide, large, touch-all
+        let mut w = [5u32, 14, 5, 6, 5, 8, 9, 3, 4, 8, 6, 34, 4, 2, 2, 1, 8, 10, 4, 3];
+        if n > big {
+            w[0] = 0;
+            w[1] = 4;
+            w[15] = 12;
+            w[8] = 10;
+            w[17] = 1;
+        }
+        if self.cfg.faults {
+            w[19] = 8;
+        }
+        if self.cfg.handles {
+            w[5] = 24;
+            w[6] = 26;
+            w[7] = 8;
+        }
+        match self.rng.weighted(&w) {
+            0 => grow(self, ex),
+            1 => {
+                // bulk adoption: m DISTINCT parents each receive a (mostly fresh, white) child
+                let m = self.bulk_n(parents.len());
+                let mut sc = self.scratch(ex, a);
+                let mut body = Vec::new();
+                let interleave = self.rng.chance(1, 2);
+                let mut stores = Vec::new();
+                for (p, slot) in parents.iter().take(m) {
+                    let c = if self.rng.chance(4, 5) {
+                        let mut al = self.gen_alloc(&mut sc);
+                        while matches!(al, MOp::Alloc { kind: Kind::Set, .. }) {
+                            sc.avail.pop();
+                            al = self.gen_alloc(&mut sc);
+                        }
+                        let MOp::Alloc { id, .. } = al else { unreachable!() };
+                        body.push(al);
+                        id
+                    } else {
+                        reach[self.rng.below(n)]
+                    };
+                    let st = MOp::SetS { p: Ref::Obj(*p), slot: *slot, c: Some(c), mode: self.rng.below(4) as u8, thin: self.rng.chance(1, 6) };
+                    if interleave { body.push(st) } else { stores.push(st) }
+                }
+                body.extend(stores);
+                self.commit(&sc);
+                Op::Cb { a, kind: if self.rng.chance(3, 4) { CbKind::Mutate } else { CbKind::MutateRoot }, body }
+            }
+            2 => {
+                let m = self.bulk_n(parents.len());
+                let body = parents.iter().take(m).map(|(p, slot)| MOp::SetS { p: Ref::Obj(*p), slot: *slot, c: Some(reach[self.rng.below(n)]), mode: self.rng.below(4) as u8, thin: false }).collect();
+                Op::Cb { a, kind: CbKind::Mutate, body }
+            }
+            3 => {
+                // bulk weak references (to reachable objects and to fresh garbage: shells later)
+                let holders: Vec<Id> = reach.iter().copied().filter(|i| ex.w.objs[i].kind.n_weak() > 0).collect();
+                if holders.is_empty() {
+                    return grow(self, ex);
+                }
+                let m = self.bulk_n(holders.len());
+                let mut sc = self.scratch(ex, a);
+                let mut body = Vec::new();
+                let mut hs = holders.clone();
+                self.rng.shuffle(&mut hs);
+                for h in hs.iter().take(m) {
+                    let nw = ex.w.objs[h].kind.n_weak();
+                    let c = if self.rng.chance(1, 3) {
+                        let mut al = self.gen_alloc(&mut sc);
+                        while matches!(al, MOp::Alloc { kind: Kind::Set, .. }) {
+                            sc.avail.pop();
+                            al = self.gen_alloc(&mut sc);
+                        }
+                        let MOp::Alloc { id, .. } = al else { unreachable!() };
+                        body.push(al);
+                        id
+                    } else {
+                        let t = reach[self.rng.below(n)];
+                        if ex.w.objs[&t].kind == Kind::Set { *h } else { t }
+                    };
+                    body.push(MOp::SetW { p: Ref::Obj(*h), slot: self.rng.below(nw) as u8, c: Some(c), mode: self.rng.below(4) as u8 });
+                }
+                self.commit(&sc);
+                Op::Cb { a, kind: CbKind::Mutate, body }
+            }
+            4 => {
+                let mut hs = self.weak_holders(ex, a);
+                if hs.is_empty() {
+                    return Op::Collect { a, op: COp::Step, fault: 0 };
+                }
+                self.rng.shuffle(&mut hs);
+                let m = self.bulk_n(hs.len());
+                let mut body = Vec::new();
+                for (i, (h, s, _)) in hs.iter().take(m).enumerate() {
+                    let store = if self.rng.chance(1, 2) { parents.get(i).map(|(p, slot)| (Ref::Obj(*p), *slot, self.rng.below(4) as u8)) } else { None };
+                    body.push(MOp::Upgrade { holder: *h, wslot: *s, store });
+                }
+                Op::Cb { a, kind: CbKind::Mutate, body }
+            }
+            5 => {
+                // long handle tables: one set receives a batch of handles in one callback
+                let sets: Vec<Id> = reach.iter().copied().filter(|i| ex.w.objs[i].kind == Kind::Set).collect();
+                let targets: Vec<Id> = reach.iter().copied().filter(|i| matches!(ex.w.objs[i].kind, Kind::Node | Kind::RCell | Kind::Leaf | Kind::LCell)).collect();
+                if targets.is_empty() {
+                    return grow(self, ex);
+                }
+                let mut body = Vec::new();
+                let set = if sets.is_empty() || self.rng.chance(1, 8) {
+                    let id = self.take_ids(ex, 1);
+                    body.push(MOp::Alloc { id, kind: Kind::Set, n: 0, init: vec![] });
+                    let (p, slot) = parents.first().copied().unwrap_or((reach[0], 0));
+                    body.push(MOp::SetS { p: Ref::Obj(p), slot, c: Some(id), mode: 0, thin: false });
+                    id
+                } else {
+                    sets[self.rng.below(sets.len())]
+                };
+                let m = self.bulk_n(520);
+                let mut batch = Vec::new();
+                let fresh_targets = self.rng.chance(1, 3);
+                for _ in 0..m {
+                    let h = self.next_handle;
+                    self.next_handle += 1;
+                    let target = if fresh_targets {
+                        // the handle is the ONLY thing keeping this object alive
+                        let id = self.take_ids(ex, 1);
+                        body.push(MOp::Alloc { id, kind: if self.rng.chance(1, 2) { Kind::Leaf } else { Kind::RCell }, n: 0, init: vec![] });
+                        id
+                    } else {
+                        targets[self.rng.below(targets.len())]
+                    };
+                    body.push(MOp::Stash { set, target, h });
+                    batch.push(h);
+                }
+                self.batches.push(batch);
+                Op::Cb { a, kind: CbKind::Mutate, body }
+            }
+            6 => {
+                // empty a batch down to a few survivors at boundary ordinals
+                if self.batches.is_empty() {
+                    return Op::Collect { a, op: COp::Step, fault: 0 };
+                }
+                let bi = self.rng.below(self.batches.len());
+                let batch = self.batches.swap_remove(bi);
+                let len = batch.len();
+                let mut keep: Vec<usize> = Vec::new();
+                for _ in 0..self.rng.below(4) {
+                    let c = [0usize, 1, 15, 16, 31, 32, 33, 63, 64, 65, 96, 127, 128, 129, 255, 256, len.saturating_sub(1), self.rng.below(len.max(1))][self.rng.below(18)];
+                    if c < len {
+                        keep.push(c);
+                    }
+                }
+                let mut order: Vec<usize> = (0..len).filter(|i| !keep.contains(i)).collect();
+                match self.rng.below(3) {
+                    0 => {}
+                    1 => order.reverse(),
+                    _ => self.rng.shuffle(&mut order),
+                }
+                let survivors: Vec<u32> = keep.iter().map(|i| batch[*i]).collect();
+                if !survivors.is_empty() {
+                    self.batches.push(survivors);
+                }
+                if self.rng.chance(1, 2) {
+                    let body = order.iter().map(|i| MOp::DropH { h: batch[*i] }).collect();
+                    Op::Cb { a, kind: CbKind::Mutate, body }
+                } else {
+                    for i in order.iter() {
+                        self.pending.push_back(Op::DropH { h: batch[*i] });
+                    }
+                    self.pending.pop_front().unwrap_or(Op::Audit { a })
+                }
+            }
+            7 => {
+                let sets: Vec<Id> = reach.iter().copied().filter(|i| ex.w.objs[i].kind == Kind::Set).collect();
+                let hs: Vec<u32> = ex.w.handles.iter().filter(|(_, h)| h.live).map(|(k, _)| *k).collect();
+                if sets.is_empty() || hs.is_empty() {
+                    return Op::Collect { a, op: COp::Step, fault: 0 };
+                }
+                let m = self.bulk_n(hs.len());
+                let body = (0..m).map(|_| MOp::Fetch { set: sets[self.rng.below(sets.len())], h: hs[self.rng.below(hs.len())] }).collect();
+                Op::Cb { a, kind: CbKind::Mutate, body }
+            }
+            8 => {
+                let m = self.bulk_n(parents.len()) / 4 + 1;
+                let body = parents.iter().take(m).map(|(p, slot)| MOp::SetS { p: Ref::Obj(*p), slot: *slot, c: None, mode: self.rng.below(2) as u8, thin: false }).collect();
+                Op::Cb { a, kind: CbKind::Mutate, body }
+            }
+            9 => {
+                // long runs of adjacent garbage (optionally with a survivor in the middle)
+                let m = self.bulk_n(520) as u32;
+                let first_id = self.take_ids(ex, m + 1);
+                let kind = [Kind::Leaf, Kind::RCell, Kind::Node, Kind::LeafLock][self.rng.below(4)];
+                let mut body = vec![MOp::Burst { n: m, kind, first_id }];
+                if let (Some((p, slot)), true) = (parents.first(), self.rng.chance(1, 2)) {
+                    let mid = first_id + self.rng.below(m as usize) as u32;
+                    body.push(MOp::SetS { p: Ref::Obj(*p), slot: *slot, c: Some(mid), mode: 0, thin: false });
+                }
+                Op::Cb { a, kind: CbKind::Mutate, body }
+            }
+            10 => {
+                let kind = if self.rng.chance(1, 3) { CbKind::MutateRoot } else { CbKind::Mutate };
+                let body = self.gen_body(ex, a, kind != CbKind::Mutate, false);
+                Op::Cb { a, kind, body }
+            }
+            11 => {
+                let op = self.gen_cop();
+                let k = [1usize, 1, 2, 3, 5, 9, 20, 45, 90, 300][self.rng.below(10)];
+                if matches!(op, COp::Step | COp::StepMark | COp::StepCollect) {
+                    for _ in 1..k {
+                        let fault = if self.cfg.faults && self.rng.chance(1, 12) { 1 + self.rng.below(40) as u32 } else { 0 };
+                        self.pending.push_back(Op::Collect { a, op, fault });
+                    }
+                }
+                let mut fault = if self.cfg.faults && self.rng.chance(1, 4) { 1 + self.rng.below(40) as u32 } else { 0 };
+                if self.cfg.dfaults && fault == 0 && self.rng.chance(1, 4) {
+                    fault = DFAULT_BASE + [0u32, 1, 2, 7, 60, 127, 128, 129, 255, 256, 257][self.rng.below(11)];
+                }
+                Op::Collect { a, op, fault }
+            }
+            12 => {
+                // many complete cycles in a row (cycle counters, repeated flips)
+                for _ in 0..(2 + self.rng.below(14)) {
+                    self.pending.push_back(Op::Collect { a, op: if self.rng.chance(1, 2) { COp::FinishCycle } else { COp::CollectDebt }, fault: 0 });
+                }
+                Op::Collect { a, op: COp::FinishCycle, fault: 0 }
+            }
+            13 => Op::Audit { a },
+            14 => {
+                let body = self.gen_body(ex, a, false, true);
+                Op::Finalize { a, via_mark_debt: self.rng.chance(1, 4), body, fault: 0 }
+            }
+            15 => {
+                let slot = self.rng.below(ROOT_S.min(4)) as u8;
+                Op::Cb { a, kind: CbKind::MutateRoot, body: vec![MOp::SetS { p: Ref::Root, slot, c: None, mode: 0, thin: false }] }
+            }
+            16 => {
+                // wrap: insert a fresh indirection object between a parent and its child (the fresh
+                // object captures the child at construction, without any barrier)
+                let mut edges: Vec<(Id, u8, Id)> = Vec::new();
+                for id in reach.iter() {
+                    let o = &ex.w.objs[id];
+                    for (s, c) in o.strong.iter().enumerate() {
+                        if let (Some(c), true) = (c, s < 256 && o.kind.slot_mutable(s) && !o.kind.slot_once(s) && o.kind != Kind::Dyn) {
+                            edges.push((*id, s as u8, *c));
+                        }
+                    }
+                }
+                if edges.is_empty() {
+                    return grow(self, ex);
+                }
+                self.rng.shuffle(&mut edges);
+                let m = self.bulk_n(edges.len());
+                let first = self.take_ids(ex, m as u32);
+                let mut body = Vec::new();
+                let mut seen = std::collections::BTreeSet::new();
+                for (i, (p, slot, c)) in edges.iter().take(m).enumerate() {
+                    if !seen.insert((*p, *slot)) || ex.w.objs[c].kind == Kind::Set {
+                        continue;
+                    }
+                    let kind = [Kind::RCell, Kind::Node, Kind::LCell, Kind::OCell, Kind::Swh, Kind::Dyn, Kind::Slice][self.rng.below(7)];
+                    let nn = if matches!(kind, Kind::Slice) { 1 + self.rng.below(3) as u32 } else { 0 };
+                    let ns = kind.n_strong(nn as usize);
+                    let mut init = vec![None; ns];
+                    init[self.rng.below(ns)] = Some(*c);
+                    let id = first + i as u32;
+                    body.push(MOp::Alloc { id, kind, n: nn, init });
+                    body.push(MOp::SetS { p: Ref::Obj(*p), slot: *slot, c: Some(id), mode: self.rng.below(4) as u8, thin: false });
+                }
+                Op::Cb { a, kind: CbKind::Mutate, body }
+            }
+            17 => {
+                // wide: one slice object holding m fresh children (long gray queue when it is traced)
+                let m = self.bulk_n(520).max(3);
+                let first = self.take_ids(ex, m as u32 + 1);
+                let ck = [Kind::RCell, Kind::Leaf, Kind::Node, Kind::LCell][self.rng.below(4)];
+                let mut body = vec![MOp::Burst { n: m as u32, kind: ck, first_id: first }];
+                let swh = self.rng.chance(1, 3);
+                let init: Vec<Option<Id>> = (0..m as u32).map(|i| if self.rng.chance(9, 10) { Some(first + i) } else { None }).collect();
+                let id = first + m as u32;
+                body.push(MOp::Alloc { id, kind: if swh { Kind::Swh } else { Kind::Slice }, n: if swh { m as u32 - 1 } else { m as u32 }, init });
+                match parents.first() {
+                    Some((p, slot)) => body.push(MOp::SetS { p: Ref::Obj(*p), slot: *slot, c: Some(id), mode: 0, thin: self.rng.chance(1, 3) }),
+                    None => return grow(self, ex),
+                }
+                Op::Cb { a, kind: CbKind::Mutate, body }
+            }
+            19 => {
+                // a write barrier on EVERY reachable object (each marked object gives its trace credit
+                // back: any credit lost earlier shows as an underflow here)
+                let mode = self.rng.below(2) as u8;
+                let mut body: Vec<MOp> = reach.iter().filter(|i| ex.w.objs[i].kind != Kind::Set).map(|i| if mode == 0 { MOp::Touch { o: *i } } else { MOp::BarrierOnly { p: *i, c: None, mode: 0 } }).collect();
+                if self.rng.chance(1, 2) {
+                    body.reverse();
+                }
+                Op::Cb { a, kind: CbKind::Mutate, body }
+            }
+            _ => {
+                // large blocks (strings and slices of several KiB up to beyond the mmap threshold):
+                // spreads the heap over a wide address range
+                let k = 1 + self.rng.below(6);
+                let first = self.take_ids(ex, k as u32);
+                let mut body = Vec::new();
+                for i in 0..k {
+                    let id = first + i as u32;
+                    let (kind, nn) = match self.rng.below(3) {
+                        0 => (Kind::Str, [1000u32, 4000, 4073, 5001, 9999, 40000, 70001, 140000][self.rng.below(8)]),
+                        1 => (Kind::Slice, [255u32, 509, 1020, 1500, 4100][self.rng.below(5)]),
+                        _ => (Kind::Swh, [254u32, 511, 1203, 2047][self.rng.below(4)]),
+                    };
+                    let ns = kind.n_strong(nn as usize);
+                    let mut init = vec![None; ns];
+                    for _ in 0..ns.min(1 + self.rng.below(6)) {
+                        let s = if self.rng.chance(1, 2) { self.rng.below(ns.min(256)) } else { self.rng.below(ns) };
+                        let t = reach[self.rng.below(n)];
+                        init[s] = Some(t);
+                    }
+                    body.push(MOp::Alloc { id, kind, n: nn, init });
+                    if let Some((p, slot)) = parents.get(i) {
+                        body.push(MOp::SetS { p: Ref::Obj(*p), slot: *slot, c: Some(id), mode: self.rng.below(4) as u8, thin: self.rng.chance(1, 3) });
+                    }
+                }
+                Op::Cb { a, kind: CbKind::Mutate, body }
+            }
+        }
+    }
+
     /// next top-level op given the current state of the execution
     pub fn next_op(&mut self, ex: &mut Exec, step: usize) -> Op {
         let a = self.rng.below(self.cfg.n_arenas as usize) as u8;
         if self.cfg.profile == Profile::Pace && ex.arenas[a as usize].is_some() {
             return self.next_pace_op(ex, a, step);
+        }
+        if self.cfg.profile == Profile::Scale && ex.arenas[a as usize].is_some() {
+            return self.next_scale_op(ex, a, step);
         }
         if ex.arenas[a as usize].is_none() {
             let via = match self.rng.below(10) {
@@ -576,7 +958,10 @@ impl Gen {
             }
             1 => {
                 let op = self.gen_cop();
-                let fault = if self.cfg.faults && self.rng.chance(1, 5) { 1 + self.rng.below(12) as u32 } else { 0 };
+                let mut fault = if self.cfg.faults && self.rng.chance(1, 5) { 1 + self.rng.below(12) as u32 } else { 0 };
+                if self.cfg.dfaults && fault == 0 && self.rng.chance(1, 5) {
+                    fault = DFAULT_BASE + self.rng.below(5) as u32;
+                }
                 Op::Collect { a, op, fault }
             }
             2 => {
@@ -608,7 +993,13 @@ impl Gen {
                 let hs: Vec<u32> = ex.w.handles.iter().filter(|(_, h)| h.live).map(|(k, _)| *k).collect();
                 if hs.is_empty() { Op::Collect { a, op: COp::Step, fault: 0 } } else { Op::DropH { h: hs[self.rng.below(hs.len())] } }
             }
-            7 => Op::DropArena { a },
+            7 => {
+                if self.cfg.dfaults && self.rng.chance(1, 2) {
+                    Op::DropArenaFault { a, k: 1 + self.rng.below(6) as u32 }
+                } else {
+                    Op::DropArena { a }
+                }
+            }
             _ => {
                 // rootless_mutate: a few allocations, linked among themselves
                 self.next_id = self.next_id.max(ex.w.next_id);
